@@ -670,15 +670,17 @@ class MachineDriftJob:
     """the big-step machine models (FastaMachine): model-check the refinement to ReaderA and compare the private
     state after every call of every short history with the real reader's verif_snapshot()"""
 
-    FIELDS = ["state", "buf_len", "cap", "start", "search_pos", "seq_pos", "pos_line", "pos_byte"]
+    FIELDS_BY = {"fasta": ["state", "buf_len", "cap", "start", "search_pos", "seq_pos", "pos_line", "pos_byte"],
+                 "fastq": ["state", "incomplete_pos", "buf_len", "cap", "start", "end", "seq", "sep", "qual", "pos_line", "pos_byte"]}
 
     def __init__(self, fmt, tier):
         self.fmt, self.tier = fmt, tier
         self.name = "machine-drift-" + fmt
+        self.FIELDS = self.FIELDS_BY[fmt]
 
     def run(self, wd):
         t0 = time.time()
-        spec = "MCFastaMachine"
+        spec = "MCFastaMachine" if self.fmt == "fasta" else "MCFastqMachine"
         consts = open(os.path.join(vlib.SPEC, "%s_%s.cfg" % (spec, self.tier))).read()
         alpha = [int(v) for v in re.search(r"Alphabet = \{([^}]*)\}", consts).group(1).split(",")]
         maxlen = int(re.search(r"MaxLen = (\d+)", consts).group(1))
@@ -686,10 +688,13 @@ class MachineDriftJob:
         limit = int(re.search(r"GrowLimit = (\d+)", consts).group(1))
         maxops = int(re.search(r"MaxOps = (\d+)", consts).group(1))
         # the same constants, smaller depth, with the printing invariant
-        snapcfg = os.path.join(wd, "snapmachine.cfg")
+        snapcfg = os.path.join(wd, "snapmachine_%s.cfg" % self.fmt)
         depth = min(maxops, 2 if self.tier == "quick" else 3)
+        if self.tier == "quick" and self.fmt == "fastq":
+            maxlen -= 1          # the comparison (not the refinement check) on a smaller space in the quick tier
+        consts = re.sub(r"MaxLen = \d+", "MaxLen = %d" % maxlen, consts)
         open(snapcfg, "w").write(re.sub(r"MaxOps = \d+", "MaxOps = %d" % depth, consts).replace("INVARIANT Refines", "INVARIANT Emit"))
-        cmd = vlib.java_cmd("6g", serial=False) + ["-workers", "1", "-metadir", os.path.join(wd, "mdsnapm"), "-cleanup", "-noGenerateSpecTE", "-config", snapcfg, spec + ".tla"]
+        cmd = vlib.java_cmd("6g", serial=False) + ["-workers", "1", "-metadir", os.path.join(wd, "mdsnapm" + self.fmt), "-cleanup", "-noGenerateSpecTE", "-config", snapcfg, spec + ".tla"]
         env = dict(os.environ)
         env.pop("JAVA_TOOL_OPTIONS", None)
         p = subprocess.run(cmd, cwd=vlib.SPEC, env=env, stdout=subprocess.PIPE, stderr=subprocess.STDOUT, text=True, timeout=3600)
@@ -750,11 +755,16 @@ def mc_fasta_machine(tier):
                  inv_props={"Refines": ["C04", "C05", "C09", "C06"]})
 
 
+def mc_fastq_machine(tier):
+    return McJob("fastqmachine", "MCFastqMachine", "MCFastqMachine_" + tier, ["C04"], workers=10, timeout=q(tier, 900, 10800), xmx="10g", coverage=False,
+                 inv_props={"Refines": ["C04", "C05", "C09", "C06"]})
+
+
 _old_build_jobs5 = build_jobs
 
 
 def build_jobs(prop, tier):
     J = _old_build_jobs5(prop, tier)
     if prop in ("C04", "C05"):
-        J = [mc_fasta_machine(tier)] + J + [MachineDriftJob("fasta", tier)]
+        J = [mc_fasta_machine(tier), mc_fastq_machine(tier)] + J + [MachineDriftJob("fasta", tier), MachineDriftJob("fastq", tier)]
     return J
